@@ -86,8 +86,11 @@ def main():
         source = eval(eval_, {"linesep": linesep})
         code = compile(cast(str, source), "<string>", "exec")
     elif file is not None:
-        source = file.read_text()
-        code = compile(cast(str, source), str(file), "exec")
+        # Compile the bytes of the file, like Python does when it runs a file, so that
+        # an encoding declaration or a byte order mark in the file are respected
+        source_bytes = file.read_bytes()
+        source = importlib.util.decode_source(source_bytes)
+        code = compile(source_bytes, str(file), "exec")
     elif cmd is not None:
         # replace escaped newlines with newlines
         source = cmd.replace("\\n", "\n")
